@@ -80,9 +80,18 @@ type sessUDP struct {
 	in       []byte
 	inAddr   *net.UDPAddr
 	inLen    int
+	// a second datagram, returned by the second read
+	in2    []byte
+	inLen2 int
+	reads  int
 }
 
 func (u *sessUDP) ReadMsgUDP(b, oob []byte) (int, int, int, *net.UDPAddr, error) {
+	u.reads++
+	if u.reads == 2 && u.in2 != nil {
+		copy(b, u.in2)
+		return u.inLen2, 0, 0, u.inAddr, nil
+	}
 	copy(b, u.in)
 	return u.inLen, 0, 0, u.inAddr, nil
 }
